@@ -289,6 +289,14 @@ def check_sequence(ctx, rng, algtext):
             if s.mac != want:
                 ctx.violation(f"multi-envelope-mac-differs-from-rfc8945:{'first' if i == 0 else 'subsequent'}:{algtext}", f"envelope {i}: lib {s.mac.hex()} ref {want.hex()}", dict(case, wire=w))
                 return
+            if i == 0:
+                # the same message object signed again as the first envelope of a (new) exchange is again a first envelope,
+                # whatever signing context an earlier rendering left behind in the object
+                w_again = sign_with_lib(m, key, clock, req_mac, orig_id=oid_l, multi=True, ctx=None)
+                s2 = RT.Split(w_again)  # (records may be shuffled differently: the reference is recomputed over these octets)
+                if s2.mac != RT.mac(algtext, secret, RT.digest_input(s2, request_mac=req_mac)):
+                    ctx.violation(f"first-envelope-mac-wrong-when-rendered-again:{algtext}", f"lib {s2.mac.hex()}", dict(case, wire=w_again))
+                    return
             prior = s.mac
             wires.append(w)
         vctx = None
